@@ -290,15 +290,30 @@ def _cmp_leaf(cat, a, b, kappa, slack=1.0):
     return "FAIL", f"rel diff {rel:.3e} > tol {tol:.1e} (kappa {kappa:.2e})"
 
 
-def _flip(ref, cand):
-    """Newton branch flip: iteration counts / total_retries of some statistic differ."""
+_PARAM_RE = None
+
+
+def _param_of(path):
+    """name of the parameter a state / update leaf belongs to (None for global leaves)."""
+    global _PARAM_RE
+    import re
+    if _PARAM_RE is None:
+        _PARAM_RE = re.compile(r"\['(p\d+)'\]")
+    m = _PARAM_RE.search(path)
+    return m.group(1) if m else None
+
+
+def _flips(ref, cand):
+    """Newton branch flips: parameters owning a statistic whose iteration count / total_retries differ, with the
+    first differing pair for the record."""
     import numpy as np
+    out = {}
     for (p, a), (_q, b) in zip(ref, cand):
         c = _cat(p)
         if c in ("metrics.inverse_pth_root_iters", "metrics.total_retries") and a.shape == b.shape:
             if not np.array_equal(a, b):
-                return True
-    return False
+                out.setdefault(_param_of(p) or "?", [c, np.asarray(a).reshape(-1).tolist(), np.asarray(b).reshape(-1).tolist()])
+    return out
 
 
 def _dense(x):
@@ -386,27 +401,45 @@ def _jit_record(opt, params, grads):
 
 def _compare_run(ref, cand, D, eps, thr, lead_ref, lead_cand, tally, skip_paths=None, slack=1.0):
     """ref/cand: records over steps. lead_*: whether the arrays carry a leading device axis.
-    Returns (fails, flip_step)."""
+    Returns (fails, first_flip_step). A Newton branch flip of one statistic excuses, from that step on, only the
+    leaves of the parameter that owns it (and, in sharded mode, the global preconditioner rows); every other
+    parameter keeps being compared."""
     fails = []
+    excused = set()
+    flip_step = None
     for t, (r, c) in enumerate(zip(ref, cand)):
         rp = [p for p, _ in r["flat"]]
         cp = [p for p, _ in c["flat"]]
         if rp != cp:
             fails.append(f"step {t}: state layout differs ({len(rp)} vs {len(cp)} leaves)")
-            return fails, None
+            return fails, flip_step
         kappa = _kappa(r.get("stats", []), eps) if "stats" in r else tally.get("_kappa", {}).get(t, 1.0)
         tally.setdefault("_kappa", {})[t] = kappa
         tally["kappa_max"] = max(tally.get("kappa_max", 1.0), kappa if kappa != float("inf") else 1e300)
         for d in range(D if lead_cand else 1):
             refl = [(p, (a[0] if lead_ref else a)) for p, a in r["flat"]]
             candl = [(p, (b[d] if lead_cand else b)) for p, b in c["flat"]]
-            if _flip(refl, candl):
-                tally["branch_flip"] = tally.get("branch_flip", 0) + 1
-                return fails, t
+            fl = _flips(refl, candl)
+            if fl:
+                new = set(fl) - excused
+                if new:
+                    tally["branch_flip_params"] = tally.get("branch_flip_params", 0) + len(new)
+                    tally.setdefault("flip_examples", [])
+                    if len(tally["flip_examples"]) < 2:
+                        k0 = sorted(new)[0]
+                        tally["flip_examples"].append([t, k0] + fl[k0])
+                    excused |= new
+                    if flip_step is None:
+                        flip_step = t
             for (p, a), (_p, b) in zip(refl, candl):
                 if skip_paths and skip_paths(p):
                     continue
                 cat = _cat(p)
+                if excused:
+                    owner = _param_of(p)
+                    if owner in excused or "?" in excused or (owner is None and cat == "preconditioners"):
+                        tally["excused_by_flip"] = tally.get("excused_by_flip", 0) + 1
+                        continue
                 status, det = _cmp_leaf(cat, a, b, kappa, slack)
                 tally["leaves"] = tally.get("leaves", 0) + 1
                 tally[status] = tally.get(status, 0) + 1
@@ -418,8 +451,8 @@ def _compare_run(ref, cand, D, eps, thr, lead_ref, lead_cand, tally, skip_paths=
                     if len(fails) < 4:
                         fails.append(f"step {t} device {d} leaf {p}: {det}")
         if fails:
-            return fails, None
-    return fails, None
+            return fails, flip_step
+    return fails, flip_step
 
 
 def _run_pmap_task(task):
@@ -462,7 +495,7 @@ def _run_pmap_task(task):
             else:
                 rec = _pmap_record(_build(cfg, "pmap"), params, grads, D, names)
                 fails, flip = _compare_run(base, rec, D, cfg["eps"], thr, True, True, tally)
-                if flip is None and not fails:
+                if not fails:
                     sm = {}
                     for d, P in rec[-1]["precs"].items():
                         sm[str(d)] = _source_map(base[-1]["precs"][0], P)
@@ -749,6 +782,11 @@ def _exact(ctx, op, case, impl, model, note=""):
 
 def _merge_tally(ctx, prefix, tally):
     for k, v in tally.items():
+        if k == "flip_examples":
+            ex = ctx.cov.setdefault("flip_examples", [])
+            if len(ex) < 6:
+                ex.extend(v[:1])
+            continue
         if k in ("max_rel", "kappa_max", "max_frac_of_tol"):
             key = prefix + "." + k
             ctx.cov["distribution"][key] = max(ctx.cov["distribution"].get(key, 0.0), v)
@@ -859,7 +897,6 @@ def compare(ctx, o, replies):
             _merge_tally(ctx, tag, r["tally"])
             if r["flip"] is not None:
                 ctx.dist(tag + ".branch_flip_runs")
-                continue
             for f in r["fails"][:2]:
                 ctx.violation(f"{tag} D={D} differs from the one-device run: {f}", cc)
             if r["fails"]:
@@ -909,7 +946,6 @@ def compare(ctx, o, replies):
             _merge_tally(ctx, "sharded", r["tally"])
             if r["flip"] is not None:
                 ctx.dist("sharded.branch_flip_runs")
-                continue
             for f in r["fails"][:2]:
                 ctx.violation(f"sharded num_devices_for_pjit={D} (mesh of {r['mesh']}) differs from num_devices_for_pjit=1: {f}", cc)
             if r["fails"]:
@@ -1024,7 +1060,8 @@ def run(ctx):
         "statistics of that step (TOL(eps*kappa) of DESIGN 2.3); error metrics absolute 1e-4 * max(1, kappa/10); int16 payloads of quantized "
         "leaves may differ by one unit (rounding boundary, counted); bitwise equality is recorded per leaf category in the distribution",
         "comparisons whose tolerance exceeds 1e-2 are counted as `weak`",
-        "Newton branch flips (iteration count / total_retries differ) end the comparison of that run and are counted, never reported",
+        "a Newton branch flip (iteration count / total_retries of a statistic differ between the two runs) excuses, from that step on, "
+        "only the leaves of the parameter owning that statistic; it is counted, never reported; eigh kinds have no such branches",
         "per-matrix determinism of XLA across batch sizes is not provable; it is what the executed runs decide",
         "multi-device pmap of a tree without statistics is only traced (jaxlib CPU compiler segfault, not the package's)",
         "sharded mode: statistics/preconditioner partition spec P('x', None, None) on a 1-D mesh whose size divides num_devices_for_pjit",
